@@ -42,7 +42,7 @@ def dec(v):
 def all_ops():
     ops = [['first'], ['last'], ['distinct'], ['duc']]
     ops += [['take', n] for n in range(0, 7)]
-    ops += [['lag', n] for n in range(1, 5)]
+    ops += [['lag', n] for n in range(0, 5)]
     ops += [['pad_start', n, v] for n in range(0, 4) for v in (None, 9)]
     ops += [['pad_end', n, v] for n in range(0, 4) for v in (None, 9)]
     ops += [['start_with', list(v), kind] for v in ((), (7,), (7, 8)) for kind in ('list', 'tuple', 'deque')]
